@@ -27,6 +27,7 @@ EXPLANATION = (
     "default on the resolution path, R11.6 frame arithmetic of Environment.capture and its single call site "
     "with reference=1 directly in design_matrices, R11.7 the captured environment is the one handed down to "
     "every evaluation and stored for prediction."
+    " R11.8 the used-variables extractor finds every data column a call mentions (C09's R9.4): a missed name is cut from the frame and resolves in the environment instead."
 )
 ASSUMPTIONS = [
     "Python: list + list concatenates in order; for-loops iterate lists front to back; inspect.currentframe()/f_back semantics",
